@@ -280,3 +280,101 @@ func ZZ_C14_Will() {
 		zzrt.Assert(published == 1, "will-published-hook-fires-once")
 	}
 }
+
+// ZZ_C14_EnhancedAuth: v5 CONNECT with an authentication method; OnEnhancedAuth and then
+// up to R rounds of OnAuth each accept, ask to continue, or reject. Every "continue" is
+// answered by one AUTH packet, the first final verdict ends the exchange: rejected =>
+// one failing CONNACK and no registration; accepted => registered once, CONNACK success.
+func ZZ_C14_EnhancedAuth() {
+	R := zzrt.Param("R")
+	srv := defaultServer()
+	var verdicts []int // 0 accept, 1 continue, 2 reject with a reason code, 3 reject with a plain error
+	for i := 0; i <= R; i++ {
+		n := 4
+		if i == R {
+			n = 3
+		}
+		v := zzrt.Choice(n)
+		if i == R && v >= 1 {
+			v++ // the last round cannot ask to continue
+		}
+		verdicts = append(verdicts, v)
+		if v != 1 {
+			break
+		}
+	}
+	code := zzrt.Byte()
+	zzrt.Assume(code >= 0x80)
+	reject := func(v int) error {
+		if v == 2 {
+			return &codes.Error{Code: code}
+		}
+		return errors.New("no")
+	}
+	calls := 0
+	onAuth := func(ctx context.Context, cl Client, req *AuthRequest) (*AuthResponse, error) {
+		v := verdicts[calls]
+		calls++
+		switch v {
+		case 0:
+			return &AuthResponse{}, nil
+		case 1:
+			return &AuthResponse{Continue: true, AuthData: []byte{byte(calls)}}, nil
+		}
+		return nil, reject(v)
+	}
+	basic := 0
+	srv.hooks.OnBasicAuth = func(ctx context.Context, cl Client, req *ConnectRequest) error { basic++; return nil }
+	srv.hooks.OnEnhancedAuth = func(ctx context.Context, cl Client, req *ConnectRequest) (*EnhancedAuthResponse, error) {
+		v := verdicts[calls]
+		calls++
+		switch v {
+		case 0:
+			return &EnhancedAuthResponse{}, nil
+		case 1:
+			return &EnhancedAuthResponse{Continue: true, OnAuth: onAuth, AuthData: []byte{byte(calls)}}, nil
+		}
+		return nil, reject(v)
+	}
+	c, _ := srv.newClient(&zzConn{})
+	registered := 0
+	c.register = func(connect *packets.Connect, client *client) (bool, error) { registered++; return false, nil }
+	c.unregister = func(*client) {}
+	conn := zzV5Connect("c1")
+	conn.Properties.AuthMethod = []byte("m")
+	c.in <- conn
+	for i := 1; i < len(verdicts); i++ {
+		c.in <- &packets.Auth{FixHeader: &packets.FixHeader{PacketType: packets.AUTH}, Code: codes.ContinueAuthentication, Properties: &packets.Properties{AuthMethod: []byte("m")}}
+	}
+	ok := c.connectWithTimeOut()
+	out := zzDrain(c)
+	final := verdicts[len(verdicts)-1]
+	zzrt.Observe("rounds", len(verdicts))
+	zzrt.Observe("final", final)
+	zzrt.Assert(basic == 0, "enhanced-auth-does-not-consult-basic-auth")
+	zzrt.Assert(calls == len(verdicts), "each-authentication-step-consults-its-hook-once")
+	zzrt.Assert(len(out) == len(verdicts), "one-answer-per-authentication-step")
+	for i := 0; i+1 < len(out); i++ {
+		au, isAuth := out[i].(*packets.Auth)
+		zzrt.Assert(isAuth && au.Code == codes.ContinueAuthentication, "continue-verdict-answered-by-auth-packet")
+		zzrt.Assert(len(au.Properties.AuthData) == 1 && au.Properties.AuthData[0] == byte(i+1), "auth-packet-carries-the-hook-data")
+	}
+	ack, isAck := out[len(out)-1].(*packets.Connack)
+	zzrt.Assert(isAck, "final-answer-is-connack")
+	if final == 0 {
+		zzrt.Assert(ok && registered == 1, "accepted-connect-registered-once")
+		zzrt.Assert(ack.Code == 0, "accepted-connect-gets-success-connack")
+		zzrt.Cover("enhanced-accepted")
+	} else {
+		zzrt.Assert(!ok && registered == 0, "rejected-connect-is-not-registered")
+		zzrt.Assert(ack.Code >= 0x80, "rejected-connect-gets-failing-connack")
+		if final == 2 {
+			zzrt.Assert(ack.Code == code, "v5-connack-carries-the-hook-reason-code")
+		}
+		zzrt.Assert(c.err != nil, "rejected-connection-is-closed-with-error")
+		zzrt.Cover("enhanced-rejected")
+	}
+	if len(verdicts) > 1 {
+		zzrt.Cover("multi-step")
+	}
+}
